@@ -384,6 +384,8 @@ def systematic_fns():
     F.append(bool_fn("f", 3, "a and b and not c", "cnf-three-units"))
     F.append(bool_fn("f", 2, "not (a and b)", "nand"))
     F.append(bool_fn("f", 3, "c or (a and b) or (not a and not b)", "unused-simplifies"))
+    F.append(bool_fn("f", 2, "(a == (not a)) or b", "anf-complement-xor"))
+    F.append(bool_fn("f", 2, "(a != (not a)) and b", "complement-xor-true"))
     F.append(Fn("f", [(v, "bool") for v in "abcd"], "bool", ["e = a and b", "return (e or c) and (e ^ d)"],
                 ref=lambda v: ((((v["a"] and v["b"]) or v["c"]) and ((v["a"] and v["b"]) ^ v["d"])),), tag="intermediate-stmt"))
     F.append(Fn("f", [("a", "bool"), ("b", "bool")], "Tuple[bool, bool]", ["return (a and b, a ^ b)"],
@@ -1038,8 +1040,7 @@ def run_bexp_case(ctx, res, script, entry, form, fmt, in_file, out_file, bucket)
     ok, what, detail = judge_bexp(script, case, out, form, fmt, judge_id)
     if not determined and not isinstance(code_sel, int):
         ok, what = False, "several functions and no -e: the tool selected none of them"
-    for e in out["log"]["nf"]:
-        validate_nf(res, case, e)
+    nf_broken = [(e[:3], w) for e in out["log"]["nf"] for w in [validate_nf(res, case, e)] if w]
     # model (deferred: requests are batched, see Pending)
     reqs, cmp1 = model_bexp(ctx, script, case, out, form, fmt, entry)
     state = dict(info={}, agrees=False, nd=None)
@@ -1063,12 +1064,20 @@ def run_bexp_case(ctx, res, script, entry, form, fmt, in_file, out_file, bucket)
             res.violation(case, sel_bad, code=dict(stdout=out["stdout"][:300], stderr=out["stderr"][:200]))
         elif not ok:
             ids = attribute(ctx, case, out, fmt, form, info, state["agrees"], what)
+            if (not ids and state["agrees"] and nf_broken and all(e[0] == "anf" and has_complement_xor(e[1]) for e, _ in nf_broken)
+                    and active(ctx, "C17-anf-complement-xor")):
+                ids = ["C17-anf-complement-xor"]
             if ids:
                 for fid in ids:
                     res.known(fid)
             else:
                 res.violation(case, what, code=dict(stdout=out["stdout"][:600], file=(out["filetext"] or "")[:600], exc=out["exc"]),
                               expected=detail)
+        elif nf_broken:
+            # the printed text is right although a sympy call broke its assumed spec (masked later)
+            bad = [w for e, w in nf_broken if not (e[0] == "anf" and has_complement_xor(e[1]))]
+            if bad:
+                res.violation(case, bad[0] + " (assumed spec of the parameter broken)", code=nf_broken[0][0])
         elif what.startswith("note:"):
             if what not in res.notes:
                 res.notes.append(what)
@@ -1234,22 +1243,35 @@ def run_dimacs_direct(ctx, res, cs):
     PENDING.append(([req], after1, lambda r2: None))
     # the spec assumed of sympy's to_cnf, validated on this call
     for e in log["nf"]:
-        validate_nf(res, case, e)
+        w = validate_nf(res, case, e)
+        if w:
+            res.violation(case, w + " (assumed spec of the parameter broken)", code=e[:3])
+
+
+def has_complement_xor(j):
+    """an Xor node with a symbol and its negation among its arguments (sympy's Xor keeps it)"""
+    if j[0] == "xor":
+        args = j[1:]
+        for x in args:
+            if x[0] == "not" and x[1] in args:
+                return True
+    return any(has_complement_xor(x) for x in j[1:] if isinstance(x, list))
 
 
 def validate_nf(res, case, e):
-    """NFSpec on one logged call: same truth table, no new symbols, cnf shape"""
+    """NFSpec on one logged call: same truth table, no new symbols, cnf shape.
+    Returns None when the spec holds, else a short description."""
     if isinstance(e[2], dict) or e[1][0] == "?" or e[2][0] == "?":
-        return
+        return None
     si, so = B.syms_json(e[1]), B.syms_json(e[2])
     if any(s not in si for s in so):
-        res.violation(case, f"sympy to_{e[0]} introduced symbols (assumed spec of the parameter broken)", code=e[:3])
-        return
+        return f"sympy to_{e[0]} introduced symbols"
     if len(si) <= 10:
         if B.truth_table(si, [e[1]]) != B.truth_table(si, [e[2]]):
-            res.violation(case, f"sympy to_{e[0]} changed the meaning (assumed spec of the parameter broken)", code=e[:3])
+            return f"sympy to_{e[0]} changed the meaning"
     if e[0] == "cnf" and not shape_ok("cnf", e[2]):
-        res.violation(case, "sympy to_cnf result is not a conjunction of clauses (assumed spec broken)", code=e[:3])
+        return "sympy to_cnf result is not a conjunction of clauses"
+    return None
 
 
 # --------------------------------------------------------------------------- run
